@@ -2,7 +2,7 @@
 import itertools
 import dns
 
-SLICE = "NAME (Name::parse at an offset through the parse_name_at hook)"
+SLICE = "NAME (Name::parse at an offset through the parse_name_at hook); PARSE (messages whose RDATA names are written with pointers)"
 ALPHA = [0, 1, 2, 3, 63, 64, 0x80, 0xBF, 0xC0, 0xC1, 0xFF, ord('a')]
 RULE = ("bounded-exhaustive: every buffer of length <= L (L=4 quick, 5 thorough) over the alphabet "
         "{0,1,2,3,63,64,0x80,0xBF,0xC0,0xC1,0xFF,'a'} at every start offset; plus seeded structured buffers: pointer chains of up to 8189 jumps (every pointer offset that exists), label runs at the "
@@ -114,6 +114,27 @@ def cases(rng, tier):
                 buf += bytes([len(l)]) + l
             buf += bytes([0xC0 | (tail_at >> 8), tail_at & 0xFF]) + b"\x01\x02"
             out.append("NAME %s %x" % (bytes(buf).hex(), here))
+    # names INSIDE RDATA written with pointers (a foreign encoder may compress any of them): after such a name the parser resumes
+    # right behind the pointer, whatever the expanded name's length - every name-bearing type, the name followed by further fields
+    import pktgen
+    nameful = [t for t in dns.TYPED if t == "IPSECKEY" or any(isinstance(k, tuple) and k[0] == "name" for k in (dns.SCHEMA[t][1] or []))]
+    for k in range(40 if tier == "quick" else 400):
+        for t in nameful:
+            shared = [[b"example", b"com"], [b"gw", b"example", b"com"]]
+            vals = dns.gen_typed_vals(rng, t, shared)
+            if t == "IPSECKEY":
+                sch = dns.ipseckey_schema(3)
+                vals = [dns.gen_field(rng, f, shared) for f in sch]
+                vals[1] = ("I", 3)
+                vals[-1] = ("B", rng.bytes(rng.choice([0, 1, 2, 5, 20])))
+            vals = [("N", rng.choice([[b"gw", b"example", b"com"], [b"x", b"example", b"com"], [b"example", b"com"], [b"com"]])) if v[0] == "N" else v for v in vals]
+            p = {"id": k, "opcode": 0, "rcode": 0, "flags": 0x8400, "opt": None,
+                 "qs": [{"name": [b"gw", b"example", b"com"], "qtype": 255, "qclass": 1, "uni": False}],
+                 "ans": [{"name": [b"o", b"example", b"com"], "class": 1, "ttl": 9, "cf": False, "rdata": ("T", t, vals)},
+                         {"name": [b"after", b"com"], "class": 1, "ttl": 9, "cf": False, "rdata": ("T", "A", [("I", 0x01020304)])}], "nss": [], "adds": []}
+            b, _ = dns.encode_marked(p, rng, 4)
+            out.append("PARSE " + b.hex())
+            PKTS[out[-1]] = p
     # pointers with a non-zero high part (targets >= 256) and at the 14-bit limit
     for tgt in (255, 256, 257, 0x123, 0x3FF, 0x400, 0x7FF, 0x800, 0xFFF, 0x1000, 0x1234, 0x1FFF, 0x2000, 0x2001, 0x2ABC, 0x3000, 0x3FF0, 0x3FFA):
         buf = bytearray(rng.bytes(tgt))
@@ -143,7 +164,19 @@ def nontrivial(case, out):
     return out.startswith("OK")
 
 
+PKTS = {}
+
+
 def oracle(case, out):
+    if case.startswith("PARSE"):
+        if out.startswith("PANIC") or out in ("HANG", "CRASH"):
+            return "%s on a message whose RDATA names are written with pointers: %s" % (out, case[6:300])
+        p = PKTS.get(case)
+        if p is not None:
+            want = "OK " + dns.pkt_text(p)
+            if out != want:
+                return "a message whose RDATA names are written with pointers parsed to %r, expected %r (%s)" % (out[:300], want[:300], case[6:200])
+        return None
     t = case.split()
     d = bytes.fromhex(t[1]) if t[1] != "-" else b""
     pos = int(t[2], 16)
